@@ -101,6 +101,7 @@ def run_history(case):
     dead = set()
     outs = []
     other = cr.CobaRandom(12345)
+    shared_w = {}
     for h in case["hist"]:
         op = h["op"]
         if op == "noise":
@@ -147,6 +148,11 @@ def run_history(case):
                 w = h.get("w")
                 if w is not None:
                     w = [(p[0] if p[1] == 1 else tofloat(p)) for p in w]
+                    if h.get("wshare") is not None:
+                        # the caller re-uses ONE weights list object, changing it in place between calls
+                        buf = shared_w.setdefault((i, h["wshare"]), [])
+                        buf[:] = w
+                        w = buf
                 if op == "choice":
                     r = g.choice(seq, w) if (w is not None or h.get("explicit_none")) else g.choice(seq)
                     outs.append({"idx": ident_index(seq, r)})
@@ -310,6 +316,8 @@ class C05(Property):
             h = {"i": i, "op": "choice", "n": n, "w": self.gen_weights(rng, n)}
             if n > 1 and rng.chance(0.4):
                 h["labels"] = [rng.below(2) for _ in range(n)]
+            if h["w"] is not None and rng.chance(0.5):
+                h["wshare"] = rng.below(2)
             if h["w"] is None and rng.chance(0.3):
                 h["explicit_none"] = True
             return h
@@ -318,6 +326,8 @@ class C05(Property):
             h = {"i": i, "op": "choicew", "n": n, "w": self.gen_weights(rng, n)}
             if n > 1 and rng.chance(0.4):
                 h["labels"] = [rng.below(2) for _ in range(n)]
+            if h["w"] is not None and rng.chance(0.5):
+                h["wshare"] = rng.below(2)
             return h
         if r < 94:
             h = {"i": i, "op": "gauss"}
@@ -374,6 +384,13 @@ class C05(Property):
                 for pre in (0, 1, 2):
                     h = [dict(one) for _ in range(pre)] + [dict(op, i=0)]
                     cs.append({"seeds": [{"kind": "int", "v": s}], "hist": h})
+        for s in (1, 7, s0):
+            cs.append({"seeds": [{"kind": "int", "v": s}], "hist": [
+                {"i": 0, "op": "choicew", "n": 3, "w": [[1, 1], [0, 1], [0, 1]], "wshare": 0},
+                {"i": 0, "op": "choicew", "n": 3, "w": [[0, 1], [0, 1], [1, 1]], "wshare": 0},
+                {"i": 0, "op": "choice", "n": 3, "w": [[0, 1], [2, 1], [0, 1]], "wshare": 0},
+                {"i": 0, "op": "choice", "n": 3, "w": [[0, 1], [0, 1], [0, 1]], "wshare": 0},
+                {"i": 0, "op": "choicew", "n": 2, "w": [[0, 1], [5, 1]], "wshare": 0}]})
         cs.append({"seeds": [{"kind": "str", "v": "abc"}, {"kind": "float", "v": "1.5"}, {"kind": "float", "v": "3.0"}],
                    "hist": [dict(one, i=0), dict(one, i=1), dict(one, i=2), {"i": 0, "op": "shuffle", "n": 6}], "subprocess": True})
         return cs
